@@ -3,6 +3,7 @@
 //! cases (ndjson) or produces implementation traces (ndjson) for TLC to validate.
 
 mod absgraph;
+mod c03;
 mod c04;
 mod c06;
 mod ids;
@@ -17,6 +18,8 @@ fn main() {
             println!("{}", ids::rank_table());
             0
         }
+        "c03" => c03::run(&rest),
+        "c03-keys" => c03::run_keys(&rest),
         "c04" => c04::run(&rest),
         "c06" => c06::run(&rest),
         _ => {
